@@ -169,6 +169,7 @@ func (s *Server) Run(addr string, opt ...Option) error {
 	s.logger.Info("listening", "op", op, "addr", s.listener.Addr())
 
 	connID := 0
+	var acceptDelay time.Duration // how long to sleep after a temporary accept failure
 	for {
 		connID++
 		select {
@@ -186,8 +187,23 @@ func (s *Server) Run(addr string, opt ...Option) error {
 				s.logger.Debug("accept on closed conn")
 				return nil
 			}
+			//nolint:staticcheck // Temporary is what accept loops have to go by (see net/http)
+			if ne, ok := err.(net.Error); ok && ne.Temporary() {
+				// e.g. out of file descriptors: keep serving the established
+				// connections and try again, do not take the server down
+				switch {
+				case acceptDelay == 0:
+					acceptDelay = 5 * time.Millisecond
+				case acceptDelay < time.Second:
+					acceptDelay *= 2
+				}
+				s.logger.Error("temporary error accepting conn; retrying", "op", op, "err", err.Error(), "delay", acceptDelay)
+				time.Sleep(acceptDelay)
+				continue
+			}
 			return fmt.Errorf("%s: error accepting conn: %w", op, err)
 		}
+		acceptDelay = 0
 		s.logger.Debug("new connection accepted", "op", op, "conn", connID)
 		conn, err := newConn(s.shutdownCtx, connID, c, s.logger, s.router)
 		if err != nil {
